@@ -363,6 +363,34 @@ def regen():
         raise Untranslatable("CRC reverse flag")
     out.append(f"Definition CRC16_POLY : N := {const_int(cfg['polynomial'])}.\nDefinition CRC16_INIT : N := {const_int(cfg['initial_value'])}.\n"
                f"Definition CRC16_XOROUT : N := {const_int(cfg['final_xor'])}.\nDefinition CRC16_REV : bool := {'true' if rev.value else 'false'}.\n\n")
+    # ---- SDP tables
+    scmd = parse("spsdk/sdp/commands.py")
+    serr = parse("spsdk/sdp/error_codes.py")
+    sblk = parse("spsdk/sdp/protocol/bulk_protocol.py")
+    for tree, cname, pfx in [(scmd, "CommandTag", "SDPCT"), (scmd, "ResponseValue", "SDPRV"), (serr, "StatusCode", "SDPSC")]:
+        out.append(f"(* sdp {cname} *)\n")
+        for name, tag in enum_members(tree, cname):
+            out.append(f"Definition {pfx}_{name} : N := {tag}.\n")
+        out.append("\n")
+    fmt = class_const(scmd, "CmdPacket", "FORMAT")
+    if not (isinstance(fmt, ast.Constant) and isinstance(fmt.value, str) and fmt.value[:1] == ">"):
+        raise Untranslatable("sdp CmdPacket.FORMAT is not a big-endian struct format")
+    widths = []
+    for cnt, ch in re.findall(r"(\d*)([BHIx])", fmt.value[1:]):
+        if "".join(c + h for c, h in re.findall(r"(\d*)([BHIx])", fmt.value[1:])) != fmt.value[1:] or ch == "x":
+            raise Untranslatable(f"sdp CmdPacket.FORMAT {fmt.value!r}")
+        widths += [{"B": 1, "H": 2, "I": 4}[ch]] * int(cnt or 1)
+    out.append(f"(* sdp CmdPacket.FORMAT {fmt.value!r}: big-endian field widths of tag, address, format, count, value, reserved *)\n"
+               f"Definition SDP_PKT_WIDTHS : list nat := [{'; '.join(str(w) + "%nat" for w in widths)}].\n")
+    hid = None
+    for n in sblk.body:
+        if isinstance(n, ast.Assign) and isinstance(n.targets[0], ast.Name) and n.targets[0].id == "HID_REPORT" and isinstance(n.value, ast.Dict):
+            hid = {k.value: v for k, v in zip(n.value.keys, n.value.values)}
+    if not hid or set(hid) != {"CMD", "DATA", "HAB", "RET"}:
+        raise Untranslatable("sdp HID_REPORT table")
+    for k in ("CMD", "DATA", "HAB", "RET"):
+        out.append(f"Definition SDP_HID_{k}_ID : N := {const_int(hid[k].elts[0])}.\nDefinition SDP_HID_{k}_SIZE : N := {const_int(hid[k].elts[1])}.\n")
+    out.append("\n")
     out.append(tr_responses(cmds, enums) + "\n")
     out.append(tr_clamp(mcu) + "\n")
     out.append(tr_methods(mcu, enums))
